@@ -17,23 +17,18 @@ open MT MT.Gen MT.CodeRefine
 section
 variable {β ω : Type} [DecidableEq β] [Weight ω]
 
-/-- the state the member initialisers leave: no vertices, no edges, empty map -/
-def emptyNet : NetLoc β :=
-  { idx_map := [], vlab := fun _ => [], outA := fun _ _ => [], innA := fun _ _ => [], nedges := 0, nvertices := 0,
-    it := none, idx := 0, ret := 0, node_in := 0, node_out := 0, u_list := [], v_list := [], labels := [] }
-
 /-- **the `Network` constructor, as written, builds `build`** (for the inputs the validation lets through: as many
 targets as sources, at least one layer) -/
 theorem code_network (directed : Bool) (starts ends : List β) (weights : List ω) (dflt : β)
     (hlen : starts.length = ends.length) (hnL : 0 < (build directed starts ends weights).nL) :
     let net := build directed starts ends weights
-    let s := networkCode directed net.nL starts ends dflt (fun i a => (chunkUnits weights net.nL i).getD a 0) emptyNet
+    let s := networkCode directed net.nL starts ends dflt (fun i a => (chunkUnits weights net.nL i).getD a 0) netInit
     (∀ a, a < net.nL → s.vlab a = net.labels) ∧
     (∀ l, s.idx_map.lookup l = if l ∈ net.labels then some (net.labels.idxOf l) else none) ∧
     (∀ a v, s.outA a v = net.out a v) ∧
     (directed = true → ∀ a v, s.innA a v = net.inn a v) ∧
-    s.nedges = net.nedges ∧ s.nvertices = net.nV :=
-  networkCode_refines directed starts ends weights dflt hlen hnL emptyNet
+    s.nedges = net.nedges ∧ s.nvertices = net.nV ∧ (directed = false → ∀ a v, s.innA a v = []) :=
+  networkCode_refines directed starts ends weights dflt hlen hnL netInit
     ⟨rfl, fun _ => rfl, fun _ _ => rfl, fun _ _ => rfl, rfl⟩
 
 /-- **`extract_vertices_with_edges` and `extract_vertices_labels` on the network just built** give the model's
@@ -41,11 +36,11 @@ source / target lists and labels (the two lists start empty: `std::make_shared<s
 theorem code_lists_and_labels (directed : Bool) (starts ends : List β) (weights : List ω) (dflt : β)
     (hlen : starts.length = ends.length) (hnL : 0 < (build directed starts ends weights).nL) :
     let net := build directed starts ends weights
-    let s := networkCode directed net.nL starts ends dflt (fun i a => (chunkUnits weights net.nL i).getD a 0) emptyNet
+    let s := networkCode directed net.nL starts ends dflt (fun i a => (chunkUnits weights net.nL i).getD a 0) netInit
     let e := extractListsCode directed net.nL ({ s with u_list := [], v_list := [] } : NetLoc β)
     e.u_list = net.uList ∧ e.v_list = net.vList ∧ (extractLabelsCode s).labels = net.labels := by
   intro net s e
-  obtain ⟨h1, h2, h3, h4, h5, h6⟩ := code_network directed starts ends weights dflt hlen hnL
+  obtain ⟨h1, h2, h3, h4, h5, h6, h7⟩ := code_network directed starts ends weights dflt hlen hnL
   have hd : net.directed = directed := rfl
   obtain ⟨e1, e2⟩ := extractListsCode_refines net ({ s with u_list := [], v_list := [] } : NetLoc β)
     h6 h3 (fun hh => h4 (by rw [← hd]; exact hh)) rfl rfl
